@@ -4,6 +4,7 @@
 //! This includes range checks, pattern validation, and cross-field constraints.
 
 use crate::config::Config;
+use super::expires::ParsedDate;
 use crate::stats::parse_duration;
 use crate::{Result, SlocGuardError};
 
@@ -47,6 +48,13 @@ fn validate_content_section(config: &Config) -> Result<()> {
 
     // Validate content.rules[i].warn_at < content.rules[i].max_lines
     for (i, rule) in config.content.rules.iter().enumerate() {
+        if let Some(warn_threshold) = rule.warn_threshold
+            && !(0.0..=1.0).contains(&warn_threshold)
+        {
+            return Err(SlocGuardError::Config(format!(
+                "content.rules[{i}].warn_threshold must be between 0.0 and 1.0, got {warn_threshold}"
+            )));
+        }
         if let Some(warn_at) = rule.warn_at
             && warn_at >= rule.max_lines
         {
@@ -55,8 +63,28 @@ fn validate_content_section(config: &Config) -> Result<()> {
                 i, warn_at, i, rule.max_lines
             )));
         }
+        // A rule without its own warn point inherits content.warn_at
+        if rule.warn_at.is_none()
+            && rule.warn_threshold.is_none()
+            && let Some(warn_at) = config.content.warn_at
+            && warn_at >= rule.max_lines
+        {
+            return Err(SlocGuardError::Config(format!(
+                "content.rules[{}] inherits content.warn_at ({}), which must be less than content.rules[{}].max_lines ({}); set warn_at or warn_threshold on the rule",
+                i, warn_at, i, rule.max_lines
+            )));
+        }
+        if let Some(expires) = &rule.expires {
+            validate_expires(expires, &format!("content.rules[{i}].expires"))?;
+        }
     }
     Ok(())
+}
+
+fn validate_expires(expires: &str, field: &str) -> Result<()> {
+    ParsedDate::parse(expires)
+        .map(|_| ())
+        .map_err(|e| SlocGuardError::Config(format!("{field}: {e}")))
 }
 
 fn validate_glob_patterns(config: &Config) -> Result<()> {
@@ -225,6 +253,31 @@ fn validate_structure_rules(config: &Config) -> Result<()> {
             return Err(SlocGuardError::Config(format!(
                 "structure.rules[{i}].warn_dirs_at ({warn_dirs_at}) must be less than structure.rules[{i}].max_dirs ({max_dirs})"
             )));
+        }
+        // A rule takes the fields it does not set from [structure]: the effective pair must be
+        // consistent as well.
+        if let (Some(warn_files_at), Some(max_files)) = (
+            rule.warn_files_at.or(config.structure.warn_files_at),
+            rule.max_files.or(config.structure.max_files),
+        ) && max_files >= 0
+            && warn_files_at >= max_files
+        {
+            return Err(SlocGuardError::Config(format!(
+                "structure.rules[{i}]: effective warn_files_at ({warn_files_at}) must be less than effective max_files ({max_files})"
+            )));
+        }
+        if let (Some(warn_dirs_at), Some(max_dirs)) = (
+            rule.warn_dirs_at.or(config.structure.warn_dirs_at),
+            rule.max_dirs.or(config.structure.max_dirs),
+        ) && max_dirs >= 0
+            && warn_dirs_at >= max_dirs
+        {
+            return Err(SlocGuardError::Config(format!(
+                "structure.rules[{i}]: effective warn_dirs_at ({warn_dirs_at}) must be less than effective max_dirs ({max_dirs})"
+            )));
+        }
+        if let Some(expires) = &rule.expires {
+            validate_expires(expires, &format!("structure.rules[{i}].expires"))?;
         }
     }
     Ok(())
